@@ -194,6 +194,15 @@ def rule_conversion(rep, repo, tier):
       repset, txt = VS.fin([0, 1]), "binary {0,1}"
     else:
       continue
+    if mode in (2, 3, 4):
+      # the sign flag of a code type is exact: the implementations OR it
+      # into their output sign without widening, so a stale flag on a
+      # {0,1} operand costs the product a magnitude bit
+      neg = mode != 4          # ternary and +-1 binary hold -1
+      rep.check(bool(tsg) == neg, "R9", unit_b,
+                "sign-flag-of-converted-code-type:" + cls,
+                "%s is converted to %s with is_signed=%r" % (cfg, txt, tsg),
+                loc=loc, instance=cfg)
     m += 1
     rep.check(vs.subset_of(repset), "R9", unit_b,
               "value-not-representable-in-converted-type:" + cls,
